@@ -618,6 +618,27 @@ def cases(ctx):
                 else:
                     edits.append(['st', lensgen.dyadic(rng, 0.5, 30, 4), k])
             out.append({'desc': d, 'ops': ops, 'shift_stop_to': None, 'real': False, 'edits': edits})
+    # buried surfaces: cemented pairs of catalogue glasses whose indices cross inside the visible; at the crossing
+    # wavelength (taken as primary) the cemented surface has no power but a dispersion step, i.e. colour terms only
+    for g1, g2 in (('N-SK16', 'F2'), ('N-BK7', 'N-K5'), ('N-SK2', 'F5'), ('N-BAK4', 'LLF1')):
+        wx = index_crossing(g1, g2)
+        if wx is None:
+            continue
+        rng = ctx.rng
+        for _ in range(1 if ctx.quick() else 8):
+            R1 = lensgen.dyadic(rng, 30, 120, 3)
+            d = {'surfaces': [{'index': 0, 'radius': 'inf', 'thickness': 'inf', 'material': {'kind': 'air'}},
+                              {'index': 1, 'radius': R1, 'thickness': lensgen.dyadic(rng, 3, 8, 3),
+                               'material': {'kind': 'catalog', 'name': g1}, 'is_stop': True},
+                              {'index': 2, 'radius': -lensgen.dyadic(rng, 25, 90, 3), 'thickness': lensgen.dyadic(rng, 1, 4, 3),
+                               'material': {'kind': 'catalog', 'name': g2}},
+                              {'index': 3, 'radius': -lensgen.dyadic(rng, 100, 400, 3), 'thickness': lensgen.dyadic(rng, 40, 120, 3),
+                               'material': {'kind': 'air'}},
+                              {'index': 4, 'radius': 'inf', 'thickness': 0, 'material': {'kind': 'air'}}],
+                 'aperture': ['EPD', lensgen.dyadic(rng, 4, 12, 2)], 'field_type': 'angle',
+                 'fields': [[0.0], [lensgen.dyadic(rng, 1, 5, 3)]],
+                 'wavelengths': [[0.4861327, 0], [wx, 1], [0.6562725, 0]]}
+            out.append({'desc': d, 'ops': 'full', 'shift_stop_to': None, 'real': False, 'buried': [g1, g2, wx]})
     for i in range(12 if ctx.quick() else 400):
         rng = ctx.rng
         R = lensgen.dyadic(rng, 15, 300, 3) * rng.choice([1, -1])
@@ -629,6 +650,29 @@ def cases(ctx):
              'fields': [[lensgen.dyadic(rng, 1, 5, 3)]], 'wavelengths': [[0.5875618, 1]]}
         out.append({'desc': d, 'ops': 'full', 'shift_stop_to': None, 'real': True, 'closed_form': True})
     return out
+
+
+def index_crossing(g1, g2, lo=0.45, hi=0.70):
+    """wavelength in [lo, hi] at which two catalogue glasses have the same index (bisection), or None"""
+    import contextlib, io
+    from optiland.materials import Material
+    try:
+        with contextlib.redirect_stdout(io.StringIO()):
+            a, b = Material(g1), Material(g2)
+        f = lambda w: float(np.ravel(a.n(w))[0]) - float(np.ravel(b.n(w))[0])      # noqa: E731
+        fl_, fh = f(lo), f(hi)
+        if not (math.isfinite(fl_) and math.isfinite(fh)) or fl_ * fh > 0:
+            return None
+        for _ in range(60):
+            mid = 0.5 * (lo + hi)
+            fm = f(mid)
+            if fl_ * fm <= 0:
+                hi, fh = mid, fm
+            else:
+                lo, fl_ = mid, fm
+        return round(0.5 * (lo + hi), 7)
+    except Exception:  # noqa
+        return None
 
 
 def make_pool():
